@@ -60,7 +60,8 @@ _country_modules = dict()
 def _get_cc_module(cc):
     """Get the VAT number module based on the country code."""
     # Greece uses a "wrong" country code, special case for Northern Ireland
-    cc = cc.lower().replace('el', 'gr').replace('xi', 'gb')
+    # and for the import one stop shop numbers that are handled by eu.vat
+    cc = cc.lower().replace('el', 'gr').replace('xi', 'gb').replace('im', 'eu')
     if not re.match(r'^[a-z]{2}$', cc):
         raise InvalidFormat()
     if cc not in _country_modules:
